@@ -99,7 +99,13 @@ class C14(Machine):
             # rejected (bit length beyond the data) or interrupted - initstate() must start afresh
             wm = rbytes(rng, rng.choice([0, 3, bb - 4, bb, bb + 1, 2 * bb + 5]))
             v = rng.random()
-            if v < 0.2 and name not in ("Blake2s", "Blake2b"):
+            if v >= 0.8:
+                # a finished stream plus a mistaken second final update (refused) on this object
+                pb.step(c, k="call", obj=o, name="initstate", args=[], kw={}, tag="warm_init", kind=name, role="noise")
+                pb.step(c, k="call", obj=o, name="update", args=[B(wm)], kw={"padding": True}, tag="warm_final", kind=name, role="noise")
+                pb.step(c, k="call", obj=o, name="update", args=[B(wm[:3])], kw={"padding": True}, tag="warm_final_again", kind=name,
+                        role="noise", cls="bad")
+            elif v < 0.2 and name not in ("Blake2s", "Blake2b"):
                 pb.step(c, k="call", obj=o, name="__call__", args=[B(wm)], kw={"bitlen": 8 * len(wm) + 5},
                         tag="warm_rejected", kind=name, role="noise", cls="bad")
             else:
@@ -278,7 +284,7 @@ class C14(Machine):
                 if any(by_id[t["id"]].get("flt", {}).get("fired") or (t.get("cls") == "bad") for t in inter):
                     probe("faulted_noise_between_pieces")
             pre = [t for t in plan["steps"][:lo] if t.get("obj") == st["obj"]]
-            if pre and pre[-1].get("role") == "init" and len(pre) >= 2 and pre[-2].get("tag") in ("warm_interrupted", "warm_rejected"):
+            if pre and pre[-1].get("role") == "init" and len(pre) >= 2 and pre[-2].get("tag") in ("warm_interrupted", "warm_rejected", "warm_final_again"):
                 probe("stream_started_after_failed_oneshot_on_same_object")
             if len(pieces) > 1 or inter:
                 nontrivial = True
